@@ -445,12 +445,16 @@ end
 
 def flattenFuel : Nat := 1000000
 
+/-- `normalize` (linearizer.rs): `exp.simplify().flatten().simplify()` — constants are folded before the
+distribution. `none` = flatten fuel exhausted. -/
+def normalizeExp (e : Exp α) : Option (Exp α) :=
+  (Exp.flattenF flattenFuel (Exp.simplify e)).map Exp.simplify
+
 /-- `Linearizer::emit_constraint`. -/
 def emitConstraint (lhs : Exp α) (cmp : Cmp) (rhs : Exp α) (name : String) : M α Unit := do
-  match Exp.flattenF flattenFuel (.bin .sub lhs rhs) with
+  match normalizeExp (.bin .sub lhs rhs) with
   | none => fail .fuel
-  | some fl =>
-    let e := Exp.simplify fl
+  | some e =>
     let v ← linExp e (cmpForReq cmp)
     modify fun s => { s with rows := s.rows ++ [{ name := name, lhs := v.vars, rhs := neg v.rhs, cmp := cmp }] }
 
@@ -729,9 +733,9 @@ def tryNormalize (d : List (DomVar α)) (lhs : Exp α) (cmp : Cmp) (rhs : Exp α
 /-! ### `Linearizer::linearize` -/
 
 def simplifyFlat (e : Exp α) : M α (Exp α) :=
-  match Exp.flattenF flattenFuel e with
+  match normalizeExp e with
   | none => fail .fuel
-  | some f => pure (Exp.simplify f)
+  | some f => pure f
 
 /-- the `while let Some(constraint) = context.pop_constraint()` loop (fuel = iteration bound). -/
 def drain : Nat → M α Unit
